@@ -22,7 +22,7 @@ import (
 	"time"
 )
 
-var searchStrings = []string{``, `a`, `-`, `--`, `-a`, `--a`, `---a`, `-ab`, `--ab=c`, `-a=b`, `a b`, ` a `, "é", "-é", "日本x", `a:b`, `"a"`, "a\tb", `-1`, `-1.5`, `abc def ghi`, `\`, `=`, "éadd", `add`, "a\nb", "\xff", "-\xffa", `a=`, `ab=`, `--a=`, `aaa bbb ccc ddd`, `ab cd`, "héllo wörld ünï", `  x  `}
+var searchStrings = []string{``, `a`, `-`, `--`, `-a`, `--a`, `---a`, `-ab`, `--ab=c`, `-a=b`, `a b`, ` a `, "é", "-é", "日本x", `a:b`, `"a"`, "a\tb", `-1`, `-1.5`, `abc def ghi`, `\`, `=`, "éadd", `add`, "a\nb", "\xff", "-\xffa", `a=`, `ab=`, `--a=`, `--file=-`, `-fx--`, `a-`, `x--`, `aaa bbb ccc ddd`, `ab cd`, "héllo wörld ünï", `  x  `}
 var searchLists = [][]string{{}, {`a`}, {`a`, `b`}, {`abd`, `add`}, {`qqqq`, `abx`, `zzzzz`}, {`status`, `stats`}}
 var searchInts = []int64{0, 1, 2, 3, 5, 10, 80, -1}
 
